@@ -465,6 +465,8 @@ where
             let dist_ptr = self.dist.as_mut_ptr();
 
             for (x, w) in self.digraph.out_neighbors_weighted(v) {
+                assert!(x < self.dist.len(), "x = {x} isn't in the digraph");
+
                 let distance = distance.saturating_add(*w);
                 let dist_x = unsafe { dist_ptr.add(x) };
 
